@@ -85,7 +85,177 @@ fn history(ctx: &mut Ctx, schema_src: &str, add_fields: &[&str]) {
     }
 }
 
+// ---------------------------------------------------------------------------------------------
+// Histories in which re-validation could change its verdict: schema directive applications carry
+// values that are valid for one built-in scalar and not for another, and edits retarget field /
+// input-field / argument / directive-argument types between built-in scalars (pruned ones included).
+// After EVERY step: validate(s) = Ok(v) ⇒ validate(v.into_inner()) = Ok with an equal schema;
+// validate(s) = Err(e) ⇒ validate(e.partial) = Err with the same errors.
+
+fn dump(s: &Schema) -> String {
+    format!("{}|{}", keys(s).join(","), s.to_string().replace('\n', " "))
+}
+
+fn error_list(e: &apollo_compiler::validation::DiagnosticList) -> Vec<String> {
+    let mut v: Vec<String> = e.iter().map(|d| d.error.to_string()).collect();
+    v.sort();
+    v
+}
+
+/// a literal accepted by built-in scalar `b` and rejected by most of the others
+fn value_for(r: &mut Rng, b: &str) -> &'static str {
+    match b {
+        "Int" => *r.pick(&["7", "-2147483648"]),
+        "Float" => *r.pick(&["123456789012", "1.5", "1e10"]),
+        "String" => *r.pick(&["\"x\"", "\"\""]),
+        "Boolean" => *r.pick(&["true", "false"]),
+        _ => *r.pick(&["\"id\"", "99999999999"]),
+    }
+}
+
+fn value_schema(r: &mut Rng) -> String {
+    // input objects In0 (fields of built-in scalars, maybe a nested In1) and In1
+    let b = |r: &mut Rng| *r.pick(&BUILTINS);
+    let in1: Vec<&str> = (0..1 + r.below(2)).map(|_| b(r)).collect();
+    let in0: Vec<&str> = (0..1 + r.below(3)).map(|_| b(r)).collect();
+    let nested = r.chance(1, 2);
+    let lit_in1 = |r: &mut Rng| -> String { format!("{{{}}}", in1.iter().enumerate().filter_map(|(i, t)| if r.chance(2, 3) { Some(format!("k{i}: {}", value_for(r, t))) } else { None }).collect::<Vec<_>>().join(", ")) };
+    let lit_in0 = |r: &mut Rng| -> String {
+        let mut parts: Vec<String> = in0.iter().enumerate().filter_map(|(i, t)| if r.chance(2, 3) { Some(format!("f{i}: {}", value_for(r, t))) } else { None }).collect();
+        if nested && r.chance(1, 2) { parts.push(format!("n: {}", lit_in1(r))); }
+        format!("{{{}}}", parts.join(", "))
+    };
+    let sa = b(r); let la = b(r);
+    let mut src = format!("directive @d(a: In0, s: {sa}, l: [{la}]) repeatable on OBJECT | FIELD_DEFINITION | ARGUMENT_DEFINITION | INPUT_FIELD_DEFINITION | INPUT_OBJECT | INTERFACE | SCHEMA\n");
+    src.push_str(&format!("input In1 {{ {} }}\n", in1.iter().enumerate().map(|(i, t)| format!("k{i}: {t}")).collect::<Vec<_>>().join(" ")));
+    src.push_str(&format!("input In0 {{ {}{} }}\n", in0.iter().enumerate().map(|(i, t)| format!("f{i}: {t}")).collect::<Vec<_>>().join(" "), if nested { " n: In1" } else { "" }));
+    let app = |r: &mut Rng| -> String {
+        let mut parts = vec![];
+        if r.chance(2, 3) { parts.push(format!("a: {}", lit_in0(r))); }
+        if r.chance(1, 2) { parts.push(format!("s: {}", value_for(r, sa))); }
+        if r.chance(1, 3) { parts.push(if r.chance(1, 2) { format!("l: [{}]", value_for(r, la)) } else { format!("l: {}", value_for(r, la)) }); }
+        if parts.is_empty() { " @d".to_string() } else { format!(" @d({})", parts.join(", ")) }
+    };
+    let nf = 1 + r.below(3);
+    let mut q = format!("type Query{} {{", if r.chance(1, 2) { app(r) } else { String::new() });
+    for i in 0..nf {
+        let arg = if r.chance(1, 2) { format!("(x: {}{})", if r.chance(1, 3) { "In0" } else { b(r) }, if r.chance(1, 2) { app(r) } else { String::new() }) } else { String::new() };
+        q.push_str(&format!(" f{i}{arg}: {}{}", b(r), if r.chance(1, 2) { app(r) } else { String::new() }));
+    }
+    q.push_str(" }\n");
+    src.push_str(&q);
+    if r.chance(1, 3) { src.push_str(&format!("interface I{} {{ i: {} }}\n", app(r), b(r))); }
+    if r.chance(1, 4) { src.push_str(&format!("input In2{} {{ z: {}{} }}\n", app(r), b(r), app(r))); }
+    src
+}
+
+/// edits of p15 (fields, arguments, input fields, add / remove a field) plus directive-definition arguments
+fn edit16(schema: &mut Schema, r: &mut Rng) -> Option<String> {
+    if r.chance(1, 4) {
+        let names: Vec<String> = schema.directive_definitions.iter().filter(|(_, d)| !d.is_built_in() && !d.arguments.is_empty()).map(|(n, _)| n.to_string()).collect();
+        if names.is_empty() { return None; }
+        let dn = names[r.below(names.len())].clone();
+        let to_s = *r.pick(&BUILTINS);
+        let to = apollo_compiler::Name::new(to_s).unwrap();
+        let def = schema.directive_definitions.get_mut(dn.as_str())?;
+        let sites: Vec<usize> = (0..def.arguments.len()).filter(|k| BUILTINS.contains(&def.arguments[*k].ty.inner_named_type().as_str())).collect();
+        if sites.is_empty() { return None; }
+        let k = sites[r.below(sites.len())];
+        let a = &mut def.make_mut().arguments[k];
+        let old = (*a.ty).clone();
+        *a.make_mut().ty.make_mut() = crate::p15::retarget(&old, &to);
+        return Some(format!("@{dn}(arg {k}): {old} -> {to_s}"));
+    }
+    crate::p15::edit(schema, r)
+}
+
+/// the idempotence oracle for one state; returns the schema to continue from
+fn step_oracle(ctx: &mut Ctx, s: Schema, desc: &str) -> Option<Schema> {
+    let before = s.clone();
+    match catch(|| s.validate()) {
+        Err(p) => { ctx.fail("validation-panic", desc, &p); None }
+        Ok(Ok(v)) => {
+            ctx.stat("vh_step_valid");
+            // the bookkeeping model sees every validated state of the history too
+            ctx.case("scalars", &[enc(&export(&before))], &canon(&before, &v));
+            let d1 = dump(&v);
+            match catch(|| v.clone().into_inner().validate()) {
+                Err(p) => { ctx.fail("validation-panic", desc, &p); return None; }
+                Ok(Err(e)) => ctx.fail("revalidation-fails", desc, &format!("validate() succeeded, validating its result again fails: {:?}", error_list(&e.errors).iter().take(2).collect::<Vec<_>>())),
+                Ok(Ok(v2)) => { if dump(&v2) != d1 || *v2 != *v { ctx.fail("revalidation-changes-schema", desc, &format!("types {:?} -> {:?}", keys(&v), keys(&v2))); } }
+            }
+            ctx.nontrivial(&d1);
+            Some(v.into_inner())
+        }
+        Ok(Err(e)) => {
+            ctx.stat("vh_step_invalid");
+            let e1 = error_list(&e.errors);
+            let partial = e.partial;
+            match catch(|| partial.clone().validate()) {
+                Err(p) => { ctx.fail("validation-panic", desc, &p); return None; }
+                Ok(Ok(_)) => ctx.fail("revalidation-accepts-invalid", desc, &format!("validate() failed with {:?}, validating the partial schema again succeeds", e1.iter().take(2).collect::<Vec<_>>())),
+                Ok(Err(e2)) => { let e2l = error_list(&e2.errors); if e2l != e1 { ctx.fail("revalidation-errors-differ", desc, &format!("{:?} then {:?}", e1.iter().take(3).collect::<Vec<_>>(), e2l.iter().take(3).collect::<Vec<_>>())); } }
+            }
+            Some(partial)
+        }
+    }
+}
+
+fn value_history(ctx: &mut Ctx, src: &str, steps: usize) {
+    let parsed = match catch(|| Schema::parse(src, "s.graphql")) { Ok(Ok(s)) => s, _ => { ctx.stat("vh_schema_build_error"); return } };
+    let mut log: Vec<String> = vec![];
+    let Some(mut cur) = step_oracle(ctx, parsed, src) else { return };
+    for _ in 0..steps {
+        let n_edits = 1 + ctx.rng.below(2);
+        let mut any = false;
+        for _ in 0..n_edits {
+            match catch(|| { let mut c = cur.clone(); let d = edit16(&mut c, &mut ctx.rng); (c, d) }) {
+                Err(p) => { ctx.fail("schema-edit-panic", src, &p); return; }
+                Ok((c, Some(d))) => { cur = c; log.push(d); any = true; }
+                Ok((_, None)) => {}
+            }
+        }
+        if !any { ctx.stat("vh_no_edit_site"); continue; }
+        log.push("validate".into());
+        let desc = format!("{src}## history: validate; into_inner; {}", log.join("; "));
+        ctx.stat("vh_steps");
+        match step_oracle(ctx, cur, &desc) { Some(s) => { cur = s; log.push("into_inner".into()); } None => return }
+    }
+}
+
+const VALUE_REGRESSIONS: &[&str] = &[
+    "directive @d(a: In) on OBJECT input In { f: Float } type Query @d(a: {f: 123456789012}) { q: String }",
+    "directive @d(s: Float) on FIELD_DEFINITION type Query { q: String @d(s: 1.5) }",
+    "directive @d(l: [ID]) on OBJECT type Query @d(l: [\"a\", 3]) { q: Boolean }",
+];
+
+/// the regression found through C15's histories (fixed by 99806f4): retarget In.f to the pruned Int
+fn scripted_value_history(ctx: &mut Ctx) {
+    for src in VALUE_REGRESSIONS {
+        for to_s in BUILTINS {
+            let Ok(Ok(parsed)) = catch(|| Schema::parse(*src, "s.graphql")) else { continue };
+            let Some(mut cur) = step_oracle(ctx, parsed, src) else { continue };
+            let to = apollo_compiler::Name::new(to_s).unwrap();
+            // retarget every built-in scalar reference of input fields and directive arguments
+            for t in cur.types.values_mut() {
+                if t.is_built_in() { continue; }
+                if let ExtendedType::InputObject(io) = t { for f in io.make_mut().fields.values_mut() { let old = (*f.ty).clone(); *f.make_mut().ty.make_mut() = crate::p15::retarget(&old, &to); } }
+            }
+            for (_, d) in cur.directive_definitions.iter_mut() {
+                if d.is_built_in() { continue; }
+                for a in d.make_mut().arguments.iter_mut() { if BUILTINS.contains(&a.ty.inner_named_type().as_str()) { let old = (*a.ty).clone(); *a.make_mut().ty.make_mut() = crate::p15::retarget(&old, &to); } }
+            }
+            let desc = format!("{src} ## history: validate; into_inner; retarget input fields and directive arguments -> {to_s}; validate");
+            let Some(cur2) = step_oracle(ctx, cur, &desc) else { continue };
+            step_oracle(ctx, cur2, &format!("{desc}; into_inner; validate"));
+        }
+    }
+}
+
 pub fn run(ctx: &mut Ctx) {
+    scripted_value_history(ctx);
+    let nv = if ctx.thorough { 30_000 } else { 3_000 };
+    for _ in 0..nv { let src = value_schema(&mut ctx.rng); let steps = 1 + ctx.rng.below(4); value_history(ctx, &src, steps); }
     let field_types = ["Int", "Float", "String", "Boolean", "ID", "T", "E", "[Int!]", "Float!"];
     let n = if ctx.thorough { 20_000 } else { 2_000 };
     history(ctx, "type Query { a: T } type T { b: T }", &["Int", "Float", "Int", "ID", "String", "Boolean"]);
